@@ -219,6 +219,65 @@ fn end_to_end(model: &mut Model, report: &mut Report, code: &str, rules: &[&str]
     }
 }
 
+struct CollectFunctions {
+    found: Vec<darklua_core::nodes::FunctionExpression>,
+}
+
+impl darklua_core::process::NodeProcessor for CollectFunctions {
+    fn process_function_expression(&mut self, function: &mut darklua_core::nodes::FunctionExpression) {
+        if self.found.len() < 8 {
+            self.found.push(function.clone());
+        }
+    }
+}
+
+fn expression_text(expression: darklua_core::nodes::Expression) -> Option<String> {
+    use darklua_core::generator::{DenseLuaGenerator, LuaGenerator};
+    let block = darklua_core::nodes::Block::default()
+        .with_last_statement(darklua_core::nodes::ReturnStatement::one(expression));
+    let text = std::panic::catch_unwind(std::panic::AssertUnwindSafe(|| {
+        let mut generator = DenseLuaGenerator::default();
+        generator.write_block(&block);
+        generator.into_string()
+    }))
+    .ok()?;
+    text.trim().strip_prefix("return").map(|t| t.trim().replace('\n', " "))
+}
+
+/// After a `FindVariables` / model mismatch on `name`: `FindVariables` is the guard of
+/// `group_local_assignment` (a later initialiser mentions an earlier variable) and of
+/// `convert_local_function_to_assign` (the body mentions the function). Put every function expression
+/// of the program (never called, so harmless) before / after a REAL use of `name` in the two contexts
+/// where the verdict matters and ask the property's own oracle.
+fn find_variables_failing_input(model: &mut Model, name: &str, block: &darklua_core::nodes::Block) -> Option<(String, String, String, String)> {
+    let mut collector = CollectFunctions { found: Vec::new() };
+    let mut copy = block.clone();
+    DefaultVisitor::visit_block(&mut copy, &mut collector);
+    let valid_name = !name.is_empty()
+        && name.chars().all(|c| c.is_ascii_alphanumeric() || c == '_')
+        && !["and", "break", "do", "else", "elseif", "end", "false", "for", "function", "if", "in", "local", "nil", "not", "or", "repeat", "return", "then", "true", "until", "while", "emit", "select"].contains(&name);
+    if !valid_name {
+        return None;
+    }
+    for function in collector.found {
+        let text = match expression_text(function.into()) { Some(t) => t, None => continue };
+        let candidates = [
+            ("group_local_assignment", format!("local {n} = 10\nlocal v_, w_ = {f}, {n}\nemit(w_)", n = name, f = text)),
+            ("group_local_assignment", format!("local {n} = 10\nlocal w_, v_ = {n}, {f}\nemit(w_)", n = name, f = text)),
+            ("group_local_assignment", format!("local {n} = 10\nlocal v_ = {{{f}, {n}}}\nemit(v_[2])", n = name, f = text)),
+            ("convert_local_function_to_assign", format!("local function {n}(n_)\n  local v_ = {f}\n  if n_ > 0 then return {n}(n_ - 1) + 1 end\n  return 0\nend\nemit({n}(2))", n = name, f = text)),
+            ("convert_local_function_to_assign", format!("local function {n}(n_)\n  if n_ > 0 then return {n}(n_ - 1) + 1 end\n  local v_ = {f}\n  return 0\nend\nemit({n}(2))", n = name, f = text)),
+        ];
+        for (rule, candidate) in candidates {
+            let rules = match exec::rule_from_json(&format!("'{}'", rule)) { Ok(x) => vec![x], Err(_) => continue };
+            if let Some((o0, o1, _)) = rulecheck::oracle_fails(model, &rules, &candidate) {
+                return Some((rule.to_owned(), candidate, o0, o1));
+            }
+        }
+    }
+    None
+}
+
 /// (3) the real `FindVariables` against the Lean `mentions`
 fn check_mentions(model: &mut Model, r: &mut Report, rng: &mut Rng, code: &str) {
     let block = match exec::parse(code) { Ok(b) => b, Err(_) => return };
@@ -242,13 +301,29 @@ fn check_mentions(model: &mut Model, r: &mut Report, rng: &mut Rng, code: &str) 
         r.count("mentions_compared", 1);
         r.hist("mentions", if real { "found" } else { "not-found" });
         if answer != (if real { "true" } else { "false" }) {
-            r.violation(Violation {
-                kind: "correspondence".into(),
-                check: "find_variables:model".into(),
-                what: format!("FindVariables({}) with DefaultVisitor says {}, the Lean model says {}", name, real, answer),
-                input: json!({"name": name, "code": code}),
-                failing_input_found: false,
-            });
+            // search for a program on which the two rules that rely on FindVariables break behaviour
+            let found = if r.violations_for("find_variables:behaviour") < 2 {
+                find_variables_failing_input(model, &name, &block)
+            } else {
+                None
+            };
+            if let Some((rule, candidate, o0, o1)) = found {
+                r.violation(Violation {
+                    kind: "oracle".into(),
+                    check: "find_variables:behaviour".into(),
+                    what: format!("FindVariables({}) disagrees with its model on a program; built around the same function expression, rule {} changes behaviour", name, rule),
+                    input: json!({"rule": format!("'{}'", rule), "code": candidate, "original_outcome": o0, "transformed_outcome": o1, "derived_from": code, "searched_name": name}),
+                    failing_input_found: true,
+                });
+            } else {
+                r.violation(Violation {
+                    kind: "correspondence".into(),
+                    check: "find_variables:model".into(),
+                    what: format!("FindVariables({}) with DefaultVisitor says {}, the Lean model says {}", name, real, answer),
+                    input: json!({"name": name, "code": code}),
+                    failing_input_found: false,
+                });
+            }
         }
     }
 }
